@@ -388,7 +388,14 @@ class ThreadProg:
             # foreign code inside a body changes the register itself (e.g. a C library that sets FTZ and does
             # not put it back): whatever it leaves, the enclosing context's exit must restore the entry value
             v = st[1]
-            self.obs.write(v)
+            reg = getattr(self.impl, "reg", None)
+            if len(st) > 2 and st[2] == "api" and reg is not None and hasattr(reg, "set_mxcsr"):
+                import ctypes
+
+                reg.set_mxcsr(ctypes.c_uint32(v))  # through the package's own setter, as user code would
+                self.stat("register_changed_through_set_mxcsr")
+            else:
+                self.obs.write(v)
             self.model = v
             self.stat("register_changed_by_body")
             if self.depth >= 1:
@@ -551,7 +558,7 @@ def gen_block(rng, kn, depth, budget):
         elif r < kn["p_with"] + 0.26 + kn["p_raise"]:
             out.append(["raise", rng.choice(kn["excs"])])
         elif r < kn["p_with"] + 0.29 + kn["p_raise"] and depth >= 1 and kn.get("poke"):
-            out.append(["poke", gen_init(rng, "arith")])
+            out.append(["poke", gen_init(rng, "arith")] + (["api"] if rng.random() < 0.5 else []))
         elif r < kn["p_with"] + 0.31 + kn["p_raise"]:
             out.append(["read"])
         elif r < kn["p_with"] + 0.35 + kn["p_raise"] and kn.get("gc"):
